@@ -123,8 +123,10 @@ def s_load(path, form="assign"):
     return {"k": "load", "path": path, "form": form}
 
 
-def s_ref(fid, runner=None):
+def s_ref(fid, runner=None, kw=False):
     d = {"k": "ref", "fn": fid}
+    if kw:
+        d["kw"] = True  # the function object is handed over as a keyword argument
     if runner:
         d["runner"] = runner  # "thread": the untracked runner calls the function in a worker thread
     return d
@@ -437,7 +439,7 @@ def _render_fn_lines(p, fid, ctx, prelude):
                 le = "(\"{d}\".format(d=%s), %s)" % (le, le)
             lines.append("    x%d = %s" % (i, le))
         elif k == "ref":
-            lines.append("    x%d = vlog.%s(%s)" % (i, "call0_thread" if s.get("runner") == "thread" else "call0", ctx.fn_expr(s["fn"], need_bare=True)))
+            lines.append("    x%d = vlog.%s(%s%s)" % (i, "call0_thread" if s.get("runner") == "thread" else "call0", "f=" if s.get("kw") else "", ctx.fn_expr(s["fn"], need_bare=True)))
         elif k == "lambda_keep":
             lines.append("    x%d = dds.keep(%r, lambda: (\"lam\", %d))" % (i, s["path"], s["const"]))
         elif k == "lambda_call":
